@@ -166,7 +166,14 @@ def run_case(c):
                         return
                     yield
                 res["done"] += 1
-        for _ in range(300):
+        # quiescence: the memory side may be in a long stall (up to 300 cycles) with beats still queued in the bridge
+        quiet, last = 0, None
+        for _ in range(30000):
+            now = (stub.seq, len(stub.wbeats[0]), len(stub.rbeats[0]), stub.outstanding())
+            quiet = quiet + 1 if now == last else 0
+            last = now
+            if quiet > 900 and stub.outstanding() == 0:
+                break
             yield
         state["done"] = True
 
